@@ -50,6 +50,9 @@ def affine(e, depth=0):
         if b[0]:
             return None
         return ({x: v * b[1] for x, v in a[0].items() if v * b[1]}, a[1] * b[1])
+    if k == "call" and e[1].split("::")[-1] == "saturating_sub" and len(e[2]) == 2:
+        # equal to a - b whenever the subtraction does not saturate (it saturates only for a record-only file)
+        return affine(("bin", "Sub", e[2][0], e[2][1]), depth + 1)
     if k == "call" and e[1].split("::")[-1] == "len":
         return ({"len(%s)" % show(e[2][0]).replace("&", "").replace("*", "").strip("()"): 1}, 0)
     return ({show(e): 1}, 0)
@@ -349,6 +352,8 @@ def run(chk):
                 or re.fullmatch(r"\(len-.*\.sauce_header_len\)", s2) is not None
             # the checked subtraction writes a tuple first: `len = move _x.0` with _x = SubO(len, hdr)
             if not ok and re.fullmatch(r"\(len-.*sauce_header_len.*\)", s2):
+                ok = True
+            if not ok and re.fullmatch(r"saturating_sub\(len,.*sauce_header_len\)", s2):
                 ok = True
             chk.obligation(ok)
             if not ok:
